@@ -19,7 +19,7 @@ Conforms(e) == e.res = Expected(e)
 Init == l = 0
 Next == /\ l < Len(Tr)
         /\ l' = l + 1
-        /\ (Conforms(Tr[l + 1]) \/ PrintT(<<"REJECT", Tr[l + 1].id, ToString(Expected(Tr[l + 1]))>>))
+        /\ (IF Conforms(Tr[l + 1]) THEN TRUE ELSE PrintT(<<"REJECT", Tr[l + 1].id, ToString(Expected(Tr[l + 1]))>>))
 \* every line was consumed (one state per event plus the initial state)
 Accepted == TLCGet("stats").diameter - 1 = Len(Tr)
 =============================================================================
